@@ -98,6 +98,8 @@ def run_variant(pid: str, v: dict) -> dict:
         known = {k["key"] for k in _load_known().get("known", []) if k.get("property") == pid}
         new = [f for f in rep.findings if f.key not in known]
         res["got"] = sorted({f"{f.rule} @ {f.func}" for f in new})
+        if rep.analysis_errors and not new:
+            raise AnalysisError("; ".join(rep.analysis_errors))
         want = v.get("fires")
         if want is None:
             res["status"] = "ok" if not new else "FALSE-ALARM"
